@@ -14,6 +14,8 @@ from pydoctor import model, epydoc2stan, node2stan
 
 from twisted.web.template import Tag, renderer
 from lunr import lunr, get_default_builder
+from lunr.index import Index
+from lunr.token_set import TokenSet
 
 if TYPE_CHECKING:
     from twisted.web.template import Flattenable
@@ -144,11 +146,18 @@ class LunrIndexWriter:
         # Removing the stemmer from the search pipeline, see https://github.com/yeraydiazdiaz/lunr.py/issues/112
         builder.search_pipeline.reset()
 
-        index = lunr(
-            ref='qname',
-            fields=[{'field_name':name, 'boost':self._BOOSTS[name]} for name in self.fields],
-            documents=self.get_corpus(), 
-            builder=builder)   
+        documents = self.get_corpus()
+        if documents:
+            index = lunr(
+                ref='qname',
+                fields=[{'field_name':name, 'boost':self._BOOSTS[name]} for name in self.fields],
+                documents=documents, 
+                builder=builder)
+        else:
+            # lunr cannot build an index out of an empty corpus (ZeroDivisionError): 
+            # when no object is visible, write an empty index.
+            index = Index(inverted_index={}, field_vectors={}, token_set=TokenSet(), 
+                          fields=list(self.fields), pipeline=builder.search_pipeline)
         
         serialized_index = json.dumps(index.serialize())
 
